@@ -38,26 +38,26 @@ for pid in sorted(props):
             earlier.append(f"- {m.get('what','')} [files: {fs}]")
         t+='\n\nEARLIER behaviour-preserving changes already made for this property (do something of a DIFFERENT kind, and if possible in different functions among the anchors — the property\'s mechanisms list several places; also the functions those call):\n'+'\n'.join(earlier)
         focus={
- 'C01':'the three undo executors ExecuteOn / buildUndoSQL (pkg/datasource/sql/undo/executor/mysql_undo_*_executor.go) and the replay loop of BaseUndoLogManager.Undo',
+ 'C01':'BaseUndoLogManager.FlushUndoLog / InsertUndoLog / InsertUndoLogWithSqlConn (pkg/datasource/sql/undo/base/undo.go) and the SQL statement constants they use',
  'C02':'Tx.register and Tx.report (pkg/datasource/sql/tx.go) and Conn.BeginTx / newTx (conn.go)',
- 'C03':'baseExecutor.buildLockKey (base_executor.go), selectForUpdateExecutor.ExecContext / doExecContext, and the join of lock keys in Tx.register',
- 'C04':'GlobalTransactionManager.Begin / Commit / Rollback (pkg/tm/global_transaction.go) and commitOrRollback',
- 'C05':'TCCServiceProxy.Prepare / registeBranch (pkg/rm/tcc/tcc_service.go) and the parameter/context extraction helpers it uses',
+ 'C03':'BaseTableMetaCache.refresh / GetTableMeta (pkg/datasource/sql/datasource/base/meta_cache.go) and the column-list building of updateExecutor / multiUpdateExecutor buildBeforeImageSQL',
+ 'C04':'WithGlobalTx / commitOrRollback and the guard that decides whether a scope runs the second phase (pkg/tm/transaction_executor.go)',
+ 'C05':'the collection of tagged parameters into the action context (getActionContextParameters / getOrCreateBusinessActionContext and the reflect loop, pkg/rm/tcc and pkg/tm/business_action_context helpers)',
  'C06':'WithFence / DoFence and the fence transaction handling in pkg/rm/tcc/fence (fence_api.go, fence_driver*.go)',
- 'C07':'begin() and its propagation switch, beginNewGtx / useExistGtx (pkg/tm/transaction_executor.go) and the grpc / dubbo integrations',
- 'C08':'the undo-log parsers (pkg/datasource/sql/undo/parser/*.go) and BaseUndoLogManager.serializeBranchUndoLog / getRollbackInfo / encodeUndoLogCtx / decodeUndoLogCtx',
+ 'C07':"WithGlobalTx's second-phase decision (commitOrRollback, the IsGlobalTx / role tests) and the clearing of the context at scope exit in pkg/tm/transaction_executor.go",
+ 'C08':'pkg/datasource/sql/undo/parser/parser_protobuf.go: convertInterfaceToAny / convertAnyToInterface / ProtobufParser.Encode / Decode and the conversion helpers between the pb and the Go image types',
  'C09':'IsRecordsEquals / compareRows / DeepEqual and the row-key building in pkg/datasource/sql/undo/executor/utils.go and pkg/datasource/sql/datasource/utils.go',
- 'C10':'the marker logic of BaseUndoLogManager.Undo (exists / InsertUndoLogWithGlobalFinished / DeleteUndoLog) and InsertUndoLog',
+ 'C10':'BaseUndoLogManager.InsertUndoLog / InsertUndoLogWithGlobalFinished / insertUndoLog helper and the INSERT statement text they prepare (pkg/datasource/sql/undo/base/undo.go)',
  'C11':'AsyncWorker.dealWithGroupedContexts and BaseUndoLogManager.BatchDeleteUndoLog',
- 'C12':'the codecs of BranchRegisterRequest / BranchReportRequest / GlobalStatus / RegisterRM and the helpers in pkg/util/bytes',
- 'C13':'RpcPackageHandler.Read / Write / encodeHeapMap / decodeHeapMap (pkg/remoting/getty/readwriter.go)',
- 'C14':'GettyRemotingClient.SendSyncRequest / SendAsyncRequest / SendAsyncResponse and GettyRemoting.SendSync / SendAsync / sendAsync',
- 'C15':'rmBranchCommitProcessor.Process / rmBranchRollbackProcessor.Process and ResourceManagerCache.GetResourceManager',
- 'C16':'ATConn / XAConn ExecContext, QueryContext, PrepareContext and Conn.BeginTx / ResetSession',
- 'C17':'XAConn.BeginTx / Commit / Rollback / XaCommit / XaRollback and XAResourceManager.BranchCommit / BranchRollback',
- 'C18':'updateExecutor / deleteExecutor buildBeforeImageSQL and baseExecutor.buildSelectArgs / traversalArgs',
- 'C19':'LeastActiveLoadBalance / RoundRobinLoadBalance / XidLoadBalance and the listener OnOpen / OnClose',
- 'C20':'RegisterTxHook / CleanTxHooks and their readers, SessionManager register/release, AsyncWorker buffer handling',
+ 'C12':'the length-prefixed read/write helpers of pkg/util/bytes/buf_helper.go (ReadString8/16/32/64Length, ReadBytes*, WriteString*Length) ',
+ 'C13':'the length-prefixed helpers of pkg/util/bytes/buf_helper.go that the frame reader and the head-map decoder use, and decodeHeapMap',
+ 'C14':'GettyRemoting.sendAsync (the futures table: store, write, delete on failure, hand-over to the callback) in pkg/remoting/getty/getty_remoting.go',
+ 'C15':'gettyClientHandler.OnMessage / OnOpen / OnClose (pkg/remoting/getty/listener.go) and the processor table lookup',
+ 'C16':'the ExecContext methods of the AT executors: deleteExecutor, updateExecutor, insertExecutor, multiUpdateExecutor, multiDeleteExecutor, selectForUpdateExecutor, plainExecutor (pkg/datasource/sql/exec/at)',
+ 'C17':'XAConn.Close / XAConn.createNewTxOnExecIfNeed / the isConnKept handling and DBResource.IsShouldBeHeld (pkg/datasource/sql/conn_xa.go)',
+ 'C18':'BaseTableMetaCache.refresh / GetTableMeta and mysql tableMetaCache.GetTableMeta / the trigger that loads metadata (pkg/datasource/sql/datasource)',
+ 'C19':'SessionManager.selectSession and the load-balance table it consults (pkg/remoting/getty/session_manager.go, pkg/remoting/loadbalance/loadbalance.go)',
+ 'C20':'GettyRemoting.sendAsync / the futures and mergeMsgMap tables, and BaseTableMetaCache (lock, refresh goroutine)',
         }
         if pid in focus:
             t+='\n\nFOR THIS ROUND please work on (one or more of) these functions, which earlier rounds left alone: '+focus[pid]+'. Typical candidates: turn a loop into a helper predicate or the reverse, split a function, merge two early returns, move a clean-up into a defer (or out of one), replace string concatenation by a builder or fmt, hoist a lock/unlock pair into a helper method, turn a closure into a method — exactly behaviour-preserving.'
